@@ -1214,7 +1214,7 @@ ACC_FILES = [
 #   elem  "str" | type name
 SHAPES = ["str", "typed", "list", "flagYes", "flagYesNo", "flagYesOrRemove", "firstLine", "restLines",
           "license", "licenseBareText", "licenseName", "licenseText", "originField", "rfc2822", "dateYmd",
-          "envMap", "vcsScan", "findPara", "filterPara", "addPara", "composite", "derived", "opaque"]
+          "envMap", "vcsScan", "bugsScan", "headerFix", "firstPara", "filterParaWithout", "findPara", "filterPara", "addPara", "composite", "derived", "opaque"]
 
 PARA_OPS = {"get": "get", "get_all": "getAll", "set": "set", "insert": "insert", "remove": "remove",
             "rename": "rename", "contains_key": "contains", "items": "items", "paragraphs": "paragraphs",
@@ -1480,9 +1480,30 @@ GET_LAMBDAS = {
 NAME = r"(" + STR + r")"
 
 
+def templated(me):
+    """parametric field names become name templates: a `&str` parameter used as the field name is
+    written "{param}", `format!("Bug-{}", vendor).as_str()` is written "Bug-{vendor}" """
+    b = me.body
+    strs = [n for n, t in me.params if t is not None and re.sub(r"'\w+ ?", "", t) == "&str"]
+    for pn in strs:
+        b = re.sub(r"(self\.0\.(?:get|get_all|set|insert|remove|contains_key)\()" + pn + r"([,)])",
+                   lambda m: m.group(1) + '"{' + pn + '}"' + m.group(2), b)
+        b = re.sub(r"(self\.0\.(?:get|get_all|set|insert|remove|contains_key)\()format!\(\"([^\"{}]*)\{\}([^\"{}]*)\"," + pn + r"\)\.as_str\(\)([,)])",
+                   lambda m: m.group(1) + '"' + m.group(2) + '{' + pn + '}' + m.group(3) + '"' + m.group(4), b)
+    return b
+
+
+BUGS_SCAN = ('self.0.items().filter_map(|(k,v)|{if k.starts_with("Bug-"){Some((Some(k.strip_prefix("Bug-").unwrap().to_string()),v))}'
+             'else if k=="Bug"{Some((None,v))}else{None}})')
+HEADER_FIX = ('if self.0.contains_key("Format-Specification"){self.0.rename("Format-Specification","Format");}'
+              'if let Some(mut format)=self.0.get("Format"){if!format.ends_with(\'/\'){format.push(\'/\');}'
+              'if let Some(rest)=format.strip_prefix("http:"){format=format!("https:{}",rest);}'
+              'if KNOWN_FORMATS.contains(&format.as_str()){format=CURRENT_FORMAT.to_string();}self.0.set("Format",format.as_str());}')
+
+
 def classify_getter(me, helpers, where):
     """returns dict or None (opaque)"""
-    b = me.body
+    b = templated(me)
     # inline private zero-argument helpers: self.helper() -> (its body)
     for hn, hb in helpers.items():
         b = b.replace(f"self.{hn}()", hb)
@@ -1529,6 +1550,18 @@ def classify_getter(me, helpers, where):
             shape = ("list", shape[1], shape[2], short_type(inner_type(inner_type(me.ret))))
         return {"kind": "get", "op": "get", "clearOp": "none", "names": names, "shape": shape,
                 "strict": strict, "absent": absent, "optional": False}
+    # DEP-3 bugs(): every `Bug` / `Bug-<vendor>` item, in order
+    if b == BUGS_SCAN:
+        return {"kind": "get", "op": "items", "clearOp": "none", "names": [], "shape": ("bugsScan",),
+                "strict": False, "absent": "default", "optional": False}
+    # the first paragraph / the paragraphs with field N but without field X
+    if re.fullmatch(r"self\.0\.paragraphs\(\)\.next\(\)\.map\((\w+)\)", b):
+        return {"kind": "get", "op": "paragraphs", "clearOp": "none", "names": [], "shape": ("firstPara",),
+                "strict": False, "absent": "none", "optional": False}
+    m = re.fullmatch(r"self\.0\.paragraphs\(\)\.filter\(\|_1\|!_1\.contains_key\(" + NAME + r"\)&&_1\.contains_key\(" + NAME + r"\)\)\.map\((\w+)\)", b)
+    if m:
+        return {"kind": "get", "op": "paragraphs", "clearOp": "none", "names": [lit(m.group(2), where)],
+                "shape": ("filterParaWithout", lit(m.group(1), where)), "strict": False, "absent": "default", "optional": False}
     # first `Vcs-<X>` field other than Vcs-Browser, through Vcs::from_field(<X>, value)
     if b == 'for(name,value)in self.0.items(){if name=="Vcs-Browser"{continue;}if let Some(vcs)=name.strip_prefix("Vcs-"){return crate::vcs::Vcs::from_field(vcs,&value).ok();}}None':
         return {"kind": "get", "op": "items", "clearOp": "none", "names": [], "shape": ("vcsScan",),
@@ -1599,7 +1632,7 @@ LICENSE_SET = {
 
 
 def classify_setter(me, where):
-    b = me.body
+    b = templated(me)
     base = {"kind": "set", "clearOp": "none", "strict": False, "absent": "none", "optional": False}
     # 1. a single mutation
     m = re.fullmatch(MUT, b, flags=re.S)
@@ -1680,6 +1713,9 @@ def classify_setter(me, where):
 def classify_other(me, where, accessor_names):
     """&mut self methods that are not setters, &self methods built from other accessors"""
     b = me.body
+    if b == HEADER_FIX:
+        return {"kind": "other", "op": "rename", "clearOp": "none", "names": ["Format-Specification", "Format"],
+                "shape": ("headerFix",), "strict": False, "absent": "none", "optional": False}
     muts = re.findall(r"self\.0\.(set|insert|remove|rename|contains_key|get)\((.*?)[,)]", b)
     if muts and all(re.fullmatch(STR, a) for _, a in muts) and any(o in ("set", "insert", "remove", "rename") for o, _ in muts):
         names = []
@@ -1763,6 +1799,8 @@ def lean_shape(sh):
     if sh[0] == "list":
         elem = ".str" if sh[3] == "str" else f"(.typed {lean_str(sh[3])})"
         return f"(.list .{sh[1]} {'true' if sh[2] else 'false'} {elem})"
+    if sh[0] == "filterParaWithout":
+        return f"(.filterParaWithout {lean_str(sh[1])})"
     return f".{sh[0]}"
 
 
@@ -1771,6 +1809,8 @@ def json_shape(sh):
         return {"tag": "typed", "ty": sh[1]}
     if sh[0] == "list":
         return {"tag": "list", "sep": sh[1], "trim": sh[2], "elem": sh[3]}
+    if sh[0] == "filterParaWithout":
+        return {"tag": sh[0], "ty": sh[1]}
     return {"tag": sh[0]}
 
 
@@ -1793,6 +1833,11 @@ def emit_acc_lean(rows, skipped):
                  f"{lean_shape(r['shape'])}, {'true' if r['strict'] else 'false'}, .{r['absent']}, {'true' if r['optional'] else 'false'}, {lean_str(r['dflt'])}⟩"
                  + ("," if i + 1 < len(rows) else ""))
     L.append("]")
+    L.append("")
+    cur, known = COPYRIGHT_CONSTS
+    L.append("/-- `CURRENT_FORMAT` / `KNOWN_FORMATS` of debian-copyright/src/lib.rs (used by `Header::fix`) -/")
+    L.append(f"def copyrightCurrentFormat : Str := {lean_str(cur)}")
+    L.append("def copyrightKnownFormats : List Str := [" + ", ".join(lean_str(k) for k in known) + "]")
     L.append("")
     L.append("end Deb822Verif.Gen.Accessors")
     return "\n".join(L) + "\n"
@@ -1821,7 +1866,29 @@ end Deb822Verif.Gen.Accessors
 """
 
 
+COPYRIGHT_CONSTS = (None, [])
+
+
+def extract_copyright_consts(srcs):
+    src = srcs("debian-copyright/src/lib.rs")
+    m = re.search(r"pub const CURRENT_FORMAT\s*:\s*&str\s*=\s*(" + STR + r")\s*;", src.code)
+    k = re.search(r"pub const KNOWN_FORMATS\s*:\s*&\[&str\]\s*=\s*&\[(.*?)\]\s*;", src.code, flags=re.S)
+    if not m or not k:
+        fail("debian-copyright/src/lib.rs: CURRENT_FORMAT / KNOWN_FORMATS not found")
+    cur = unescape(m.group(1), "debian-copyright/src/lib.rs")
+    known = []
+    for item in [x.strip() for x in k.group(1).split(",") if x.strip()]:
+        if item == "CURRENT_FORMAT":
+            known.append(cur)
+        elif re.fullmatch(STR, item):
+            known.append(unescape(item, "debian-copyright/src/lib.rs"))
+        else:
+            fail(f"debian-copyright/src/lib.rs: KNOWN_FORMATS element not classifiable: {item!r}")
+    return cur, known
+
+
 def cmd_accessors(update_baseline=False):
+    global COPYRIGHT_CONSTS
     cache = {}
 
     def srcs(rel):
@@ -1831,6 +1898,7 @@ def cmd_accessors(update_baseline=False):
 
     try:
         rows, skipped = extract_accessors(srcs)
+        COPYRIGHT_CONSTS = extract_copyright_consts(srcs)
     except TranslateError as e:
         print(f"translate accessors: ERROR: {e}", file=sys.stderr)
         write_if_changed(ACC_LEAN, ACC_POISON.format(msg=str(e).replace("-/", "- /")))
